@@ -189,7 +189,7 @@ _RQ10 = [('s%d_%s_%s' % (i, L.STRATEGY_NAMES[i] or 'none', 'two' if t else 'one'
 _RS10 = [('s%d_%s_%s_m%d' % (i, n or 'none', 'two' if t else 'one', m), 'strat == %d and two == %s and mi == %d' % (i, bool(t), m))
          for i, n in enumerate(L.STRATEGY_NAMES) for t in (0, 1) for m in range(3)]
 HARNESSES.append(
-  H('C10_race', quick=dict(timeout=280, shards=_RQ10, extra_pre=['p2 == 0', 'maxsize <= 2', 'not flow', 'mi == 0 and ti != 1', 'm2 == 1 and t2 <= 1']),
+  H('C10_race', quick=dict(timeout=420, shards=_RQ10, extra_pre=['p2 == 0', 'maxsize <= 2', 'not flow', 'mi == 0 and ti != 1', 'm2 == 1 and t2 <= 1']),
     thorough=dict(timeout=900, shards=_RS10, extra_pre=['m2 >= 1', 'p2 in (0, 3)', 'maxsize <= 2', 't2 <= 1', 'n in (0, 2, 4, 6, 8, 10, 12, 16, 20, 24)']),
     covers=['interleaved'], replay='replay_race', twin_pre=['strat == 0 and not two'],
     encodes=['carbon.cache:_MetricCache.store / pop / drain_metric / is_full / is_nearly_full (statement-level coroutines)'],
